@@ -14,10 +14,10 @@ pub fn run(cfg: &RunCfg, agg: &Mutex<Agg>) {
         case(&mut Rng::new(cs), out);
     });
     // few shards of 4 / 8 MiB (block counts on a 16-bit boundary), dense data
-    run_cases(agg, cfg, "linearity-long-shards", if cfg.thorough { 16 } else { 3 }, |cs, out| {
-        LONG.with(|l| l.set(true));
-        case(&mut Rng::new(cs), out);
-        LONG.with(|l| l.set(false));
+    crate::util::run_indexed(agg, cfg, "linearity-long-shards", if cfg.thorough { 32 } else { 8 }, |i, out| {
+        LONG.with(|l| l.set(Some(i as usize)));
+        case(&mut Rng::new(crate::util::mix(cfg.seed, i)), out);
+        LONG.with(|l| l.set(None));
     });
 }
 
@@ -39,7 +39,8 @@ fn scale(a: &[Vec<u8>], c: u16) -> Vec<Vec<u8>> {
 }
 
 thread_local! {
-    static LONG: std::cell::Cell<bool> = const { std::cell::Cell::new(false) };
+    /// case index of the long-shards stage (fixes engine and size)
+    static LONG: std::cell::Cell<Option<usize>> = const { std::cell::Cell::new(None) };
 }
 
 fn case(rng: &mut Rng, out: &mut CaseOut) {
@@ -47,20 +48,23 @@ fn case(rng: &mut Rng, out: &mut CaseOut) {
     let class = gen::class_mix(rng, true);
     let (mut k, mut r) = gen::config(rng, class, rate);
     let mut size = gen::shard_size(rng, k, r);
-    if LONG.with(|l| l.get()) {
+    let long = LONG.with(|l| l.get());
+    if let Some(i) = long {
         k = rng.range(2, 4);
-        r = rng.range(1, 4);
-        size = *rng.pick(&[4usize << 20, 4 << 20, (4 << 20) + 64, 8 << 20]);
+        r = rng.range(2, 4);
+        size = [4usize << 20, 8 << 20][(i / 4) % 2];
         out.tag("long-shards");
     }
-    let api = if LONG.with(|l| l.get()) {
-        codec::Api::Rate(rate, *rng.pick(&codec::EngineKind::fast()))
-    } else {
-        gen::api(rng, rate, k, r)
+    let api = match long {
+        Some(i) => {
+            let fast = codec::EngineKind::fast();
+            codec::Api::Rate(rate, fast[i % fast.len()])
+        }
+        None => gen::api(rng, rate, k, r),
     };
     let poison = rng.chance(1, 2);
     let _p = Poison::new(poison, rng.next_u64());
-    let a = gen::originals(rng, k, size);
+    let a = if long.is_some() { (0..k).map(|_| rng.bytes(size)).collect() } else { gen::originals(rng, k, size) };
     // b: another data set, or (a quarter of the cases) the delta of a small
     // update - a few bytes in one or two shards, everything else zero
     let delta = rng.chance(1, 4);
